@@ -1,4 +1,5 @@
 """C13 — concentration analysis zeroes the baseline and applies its stages in order."""
+import datetime
 import json
 import random
 import warnings
@@ -46,7 +47,9 @@ def run_case(darsia, rng, tid, cfg, nextra, rgb, dtype, shape, probe_is_base):
         return np.array([rng.randint(0, 3) for _ in range(int(np.prod(full)))]).reshape(full).astype(dtype)
 
     def image(a):
-        kw = dict(dimensions=[0.5 * shape[0], 0.25 * shape[1]], origin=[1.0, 2.0], name="probe")
+        # (images of an experiment: named, placed, dated relative to the start of the experiment)
+        kw = dict(dimensions=[0.5 * shape[0], 0.25 * shape[1]], origin=[1.0, 2.0], name="probe",
+                  date=datetime.datetime(2024, 5, 1, 12, 0, 0), reference_date=datetime.datetime(2024, 5, 1, 10, 0, 0))
         if rgb:
             return darsia.OpticalImage(a, color_space="RGB", **kw)
         return darsia.ScalarImage(a, **kw)
@@ -159,7 +162,9 @@ def run_case(darsia, rng, tid, cfg, nextra, rgb, dtype, shape, probe_is_base):
                                        and all(np.array_equal(np.asarray(before[1][k_]), np.asarray(after_meta[k_])) if k_ in ("origin", "dimensions") else before[1][k_] == after_meta[k_] for k_ in before[1]))
             om = out.metadata()
             e["meta_equal"] = int(np.allclose(om["dimensions"], before[1]["dimensions"]) and np.allclose(om["origin"], before[1]["origin"])
-                                  and om["space_dim"] == 2 and om["name"] == before[1]["name"] and out.img.shape[:2] == tuple(shape))
+                                  and om["space_dim"] == 2 and om["name"] == before[1]["name"] and out.img.shape[:2] == tuple(shape)
+                                  and om.get("date") == before[1].get("date") and om.get("reference_date") == before[1].get("reference_date")
+                                  and om.get("time") == before[1].get("time") and out.reference_date == probe.reference_date)
             e["scalar_result"] = int(bool(out.scalar))
             e["probe_scalar"] = int(not rgb)
         except Exception as ex:  # noqa
